@@ -21,11 +21,12 @@ VARIABLES l,          \* position in Trace
           chosen,     \* id -> partition the (wrapped) partitioner chose, when attributable
           log,        \* part -> sequence of ids appended by the brokers
           wire,       \* part -> sequence of distinct batches seen on the wire [epoch, seq, ids]
+          bstate,     \* part -> [has, epoch, next, win] : Kafka's per-partition producer state as the spec computes it
           icount,     \* <<chain, id>> -> number of interceptor invocations
           phase,      \* [closeCalled, succClosed, errClosed, closeRet, hung]
           viol, stats
 
-vars == <<l, cfg, submitted, subInfo, outcome, okAt, chosen, log, wire, icount, phase, viol, stats>>
+vars == <<l, cfg, submitted, subInfo, outcome, okAt, chosen, log, wire, bstate, icount, phase, viol, stats>>
 
 E == Trace[l]
 V(c) == {<<E.t, E.i, c>>}
@@ -41,7 +42,7 @@ Stats0 == [traces |-> 0, events |-> 0, successes |-> 0, errors |-> 0, appends |-
            retried |-> 0, unsteered |-> 0, skipped |-> 0, gates |-> 0, simerr |-> 0]
 
 Init == /\ l = 1 /\ cfg = NoCfg /\ submitted = {} /\ subInfo = <<>> /\ outcome = <<>> /\ okAt = <<>> /\ chosen = <<>>
-        /\ log = <<>> /\ wire = <<>> /\ icount = <<>> /\ phase = Phase0 /\ viol = {} /\ stats = Stats0
+        /\ log = <<>> /\ wire = <<>> /\ bstate = <<>> /\ icount = <<>> /\ phase = Phase0 /\ viol = {} /\ stats = Stats0
 
 RECURSIVE FirstCopies(_, _)
 FirstCopies(s, seen) ==
@@ -59,7 +60,7 @@ Tick == [stats EXCEPT !.events = @ + 1]
 TReset ==
   /\ E.ev = "reset"
   /\ cfg' = E
-  /\ submitted' = {} /\ subInfo' = <<>> /\ outcome' = <<>> /\ okAt' = <<>> /\ chosen' = <<>> /\ log' = <<>> /\ wire' = <<>>
+  /\ submitted' = {} /\ subInfo' = <<>> /\ outcome' = <<>> /\ okAt' = <<>> /\ chosen' = <<>> /\ log' = <<>> /\ wire' = <<>> /\ bstate' = <<>>
   /\ icount' = <<>> /\ phase' = Phase0
   /\ stats' = Bump("traces")
   /\ UNCHANGED viol
@@ -70,7 +71,7 @@ TSubmit ==
   /\ subInfo' = Put(subInfo, E.id, [part |-> E.part, size |-> E.size, late |-> phase.closeCalled])
   /\ outcome' = Put(outcome, E.id, "none")
   /\ stats' = Tick
-  /\ UNCHANGED <<cfg, okAt, chosen, log, wire, icount, phase, viol>>
+  /\ UNCHANGED <<cfg, okAt, chosen, log, wire, bstate, icount, phase, viol>>
 
 \* ---- terminal events (C01, C02, C04, C05)
 TSuccess ==
@@ -95,7 +96,7 @@ TSuccess ==
                     "success_offset_order")
           \cup When(known /\ cfg.idem /\ CountIn(lg, id) # 1, "success_in_log_exactly_once")
   /\ stats' = Bump("successes")
-  /\ UNCHANGED <<cfg, submitted, subInfo, chosen, log, wire, icount, phase>>
+  /\ UNCHANGED <<cfg, submitted, subInfo, chosen, log, wire, bstate, icount, phase>>
 
 TError ==
   /\ E.ev = "error"
@@ -107,17 +108,36 @@ TError ==
           \cup When(~known, "outcome_for_unknown")
           \cup When(known /\ outcome[id] # "none", "outcome_twice")
   /\ stats' = Bump("errors")
-  /\ UNCHANGED <<cfg, submitted, subInfo, okAt, chosen, log, wire, icount, phase>>
+  /\ UNCHANGED <<cfg, submitted, subInfo, okAt, chosen, log, wire, bstate, icount, phase>>
 
 \* ---- broker side (C02, C04, C05, C16)
+\* Kafka's sequence check (environment part of the specification; the simulated broker's own
+\* decisions are validated against it, clause sim_broker_rules => the run is inconclusive)
+NoB == [has |-> FALSE, epoch |-> 0, next |-> 0, win |-> <<>>]
+Decision(b, epoch, seq, n) ==
+  IF ~b.has THEN (IF seq = 0 THEN "accept" ELSE "ooo")
+  ELSE IF epoch < b.epoch THEN "fenced"
+  ELSE IF epoch > b.epoch THEN (IF seq = 0 THEN "accept" ELSE "ooo")
+  ELSE IF \E k \in DOMAIN b.win : b.win[k][1] = seq /\ b.win[k][2] = n THEN "dupwin"
+  ELSE IF seq = b.next THEN "accept"
+  ELSE IF b.win # <<>> /\ seq + n - 1 < b.win[1][1] THEN "dupold"
+  ELSE "ooo"
+Last5(w) == IF Len(w) <= 5 THEN w ELSE SubSeq(w, Len(w) - 4, Len(w))
+
 TAppend ==
   /\ E.ev = "append"
   /\ LET old == Get(log, E.part, <<>>)
          new == old \o E.ids
+         b == Get(bstate, E.part, NoB)
+         n == Len(E.ids)
      IN
      /\ log' = Put(log, E.part, new)
+     /\ bstate' = IF E.pid < 0 THEN bstate
+                   ELSE Put(bstate, E.part, [has |-> TRUE, epoch |-> E.epoch, next |-> E.seq + n,
+                                            win |-> Last5(Append(IF ~b.has \/ E.epoch > b.epoch THEN <<>> ELSE b.win, <<E.seq, n, E.base>>))])
      /\ viol' = viol
           \cup When(E.base # Len(old), "sim_inconsistent")
+          \cup When(E.pid >= 0 /\ Decision(b, E.epoch, E.seq, n) # "accept", "sim_broker_rules")
           \cup When(\E k \in DOMAIN E.ids : E.ids[k] \notin submitted, "nothing_foreign_appended")
           \cup When(E.bad # <<>>, "wire_content_equals_submitted")
           \cup When(~cfg.sync /\ ~Increasing(FirstCopies(new, {})), "log_order")
@@ -157,7 +177,7 @@ TRecv ==
        \cup When(cfg.maxReqSize > 0 /\ E.wire > cfg.maxReqSize, "max_request_size")
   /\ wire' = AddBatches(wire, E.batches)
   /\ stats' = Bump("requests")
-  /\ UNCHANGED <<cfg, submitted, subInfo, outcome, okAt, chosen, log, icount, phase>>
+  /\ UNCHANGED <<cfg, submitted, subInfo, outcome, okAt, chosen, log, bstate, icount, phase>>
 
 \* ---- interceptors (C18)
 TIntercept ==
@@ -171,7 +191,7 @@ TIntercept ==
           \cup When(n >= 1, "intercept_once")
           \cup When(E.chain > 1 /\ Get(icount, <<E.chain - 1, E.id>>, 0) = 0, "intercept_chain_order")
   /\ stats' = Tick
-  /\ UNCHANGED <<cfg, submitted, subInfo, outcome, okAt, chosen, log, wire, phase>>
+  /\ UNCHANGED <<cfg, submitted, subInfo, outcome, okAt, chosen, log, wire, bstate, phase>>
 
 \* ---- shutdown (C01, C12)
 TPhase ==
@@ -186,7 +206,7 @@ TPhase ==
        \cup When(E.ev = "hang" /\ E.what = "submit", "input_accepts")
        \cup When(E.ev = "noreq", "flush_without_more_input")
   /\ stats' = Tick
-  /\ UNCHANGED <<cfg, submitted, subInfo, outcome, okAt, chosen, log, wire, icount>>
+  /\ UNCHANGED <<cfg, submitted, subInfo, outcome, okAt, chosen, log, wire, bstate, icount>>
 
 \* end of a scenario: the producer has been closed (or Close hung)
 TFin ==
@@ -198,16 +218,22 @@ TFin ==
                  \E m \in submitted : ~subInfo[m].late /\ \E c \in 1..cfg.interceptors : Get(icount, <<c, m>>, 0) = 0,
                  "intercept_missing")
   /\ stats' = Tick
-  /\ UNCHANGED <<cfg, submitted, subInfo, outcome, okAt, chosen, log, wire, icount, phase>>
+  /\ UNCHANGED <<cfg, submitted, subInfo, outcome, okAt, chosen, log, wire, bstate, icount, phase>>
 
 TChose ==
   /\ E.ev = "chose"
   /\ chosen' = Put(chosen, E.id, E.part)
   /\ stats' = Tick
-  /\ UNCHANGED <<cfg, submitted, subInfo, outcome, okAt, log, wire, icount, phase, viol>>
+  /\ UNCHANGED <<cfg, submitted, subInfo, outcome, okAt, log, wire, bstate, icount, phase, viol>>
+
+TDedup ==
+  /\ E.ev = "dedup"
+  /\ viol' = viol \cup When(Decision(Get(bstate, E.part, NoB), E.epoch, E.seq, E.n) # E.decision, "sim_broker_rules")
+  /\ stats' = Tick
+  /\ UNCHANGED <<cfg, submitted, subInfo, outcome, okAt, chosen, log, wire, bstate, icount, phase>>
 
 TOther ==
-  /\ E.ev \in {"meta", "move", "dedup", "reply", "drop", "gate", "sync_mismatch", "gate_timeout", "unsteered", "skip", "sim_error"}
+  /\ E.ev \in {"meta", "move", "reply", "drop", "gate", "sync_mismatch", "gate_timeout", "unsteered", "skip", "sim_error"}
   /\ stats' = CASE E.ev = "unsteered" -> Bump("unsteered")
                 [] E.ev = "skip" -> Bump("skipped")
                 [] E.ev = "gate" -> Bump("gates")
@@ -215,23 +241,23 @@ TOther ==
                 [] E.ev = "reply" /\ (\E k \in DOMAIN E.kinds : E.kinds[k][2] \notin {"ok", "dupwin"}) -> Bump("retried")
                 [] OTHER -> Tick
   /\ viol' = viol \cup When(E.ev = "sync_mismatch", "sync_return_matches")
-  /\ UNCHANGED <<cfg, submitted, subInfo, outcome, okAt, chosen, log, wire, icount, phase>>
+  /\ UNCHANGED <<cfg, submitted, subInfo, outcome, okAt, chosen, log, wire, bstate, icount, phase>>
 
 TPanic ==
   /\ E.ev = "panic"
   /\ viol' = viol \cup V("no_panic")
   /\ stats' = Tick
-  /\ UNCHANGED <<cfg, submitted, subInfo, outcome, okAt, chosen, log, wire, icount, phase>>
+  /\ UNCHANGED <<cfg, submitted, subInfo, outcome, okAt, chosen, log, wire, bstate, icount, phase>>
 
 TEnd ==
   /\ E.ev = "end"
   /\ PrintT(<<"VIOL", ToJson(viol)>>)
   /\ PrintT(<<"STATS", ToJson(stats)>>)
-  /\ UNCHANGED <<cfg, submitted, subInfo, outcome, okAt, chosen, log, wire, icount, phase, viol, stats>>
+  /\ UNCHANGED <<cfg, submitted, subInfo, outcome, okAt, chosen, log, wire, bstate, icount, phase, viol, stats>>
 
 Next == /\ l <= Len(Trace)
         /\ l' = l + 1
-        /\ (TReset \/ TSubmit \/ TChose \/ TSuccess \/ TError \/ TAppend \/ TRecv \/ TIntercept \/ TPhase \/ TFin \/ TOther \/ TPanic \/ TEnd)
+        /\ (TReset \/ TSubmit \/ TChose \/ TSuccess \/ TError \/ TAppend \/ TRecv \/ TIntercept \/ TPhase \/ TFin \/ TDedup \/ TOther \/ TPanic \/ TEnd)
 Spec == Init /\ [][Next]_vars
 Accepted == TLCGet("stats").diameter - 1 = Len(Trace)
 =============================================================================
